@@ -194,16 +194,26 @@ func DeepShapes(side string, thorough bool) []MethodCase {
 
 func deepValidMenu(thorough bool) []validEntry {
 	all := validMenu()
-	pick := map[string]bool{"enum_string": true, "min_int": true, "exmax_int": true, "minlen_string": true, "pattern_string": true}
+	// the keyword menu is fixed by name (entries of the L1 keyword menu), so that the stated
+	// sizes do not drift when the L1 menu grows
+	names := []string{"enum_string", "min_int", "exmax_int", "minlen_string", "pattern_string"}
+	if thorough {
+		names = []string{"enum_string", "enum_int", "min_int", "max_int", "exmin_int", "exmax_int", "minmax_int32", "min_uint",
+			"min_float64", "max_float64", "exmin_float64", "exmax_float32", "minlen_string", "maxlen_string", "minmaxlen_string",
+			"minlen_bytes", "pattern_string", "pattern2_string", "eqlen_string", "eq_int", "eq_float64", "format_date", "format_uuid"}
+	}
+	pick := map[string]bool{}
+	for _, n := range names {
+		pick[n] = true
+	}
 	var out []validEntry
 	for _, ve := range all {
-		isFormat := strings.HasPrefix(ve.Name, "format_")
-		switch {
-		case thorough && (!isFormat || ve.Name == "format_date" || ve.Name == "format_uuid"):
-			out = append(out, ve)
-		case !thorough && pick[ve.Name]:
+		if pick[ve.Name] {
 			out = append(out, ve)
 		}
+	}
+	if len(out) != len(names) {
+		panic("spec: deep validation menu refers to a keyword that is not in the L1 menu")
 	}
 	// "required": no keyword, the validated field is only required (missing_field at depth)
 	out = append(out, validEntry{"required", P(KString), nil})
